@@ -21,3 +21,4 @@ import SpoxModel.Props.C03
 #print axioms C03.names_restored_stmts
 #print axioms C03.pinned_statements_counterexample
 #print axioms C03.arguments_of_main_graph
+#print axioms C03.recursion_only_along_nesting
